@@ -9,12 +9,13 @@ from vf import runner
 runner.bootstrap_path()
 props = [json.loads(l) for l in (ROOT / "properties.jsonl").read_text().splitlines() if l.strip()]
 hooks_commits = json.loads((ROOT / "tools" / "hooks.json").read_text()) if (ROOT / "tools" / "hooks.json").exists() else []
+CLAIMED = set((ROOT / "tools" / "claimed.txt").read_text().split())
 checks, na = [], []
 ENGINES = {}
 for p in props:
     pid = p["id"]
     f = ROOT / "vf" / "checks" / f"{pid.lower()}.py"
-    if not f.exists():
+    if not f.exists() or pid not in CLAIMED:
         na.append({"property_id": pid, "reason": "no check registered yet: the runtime monitor for this property is not built (see DESIGN.md section 3 for the plan)"})
         continue
     m = importlib.import_module(f"vf.checks.{pid.lower()}")
